@@ -32,9 +32,14 @@ def flags_req(fl):
     return f"({b(fl['subscripts'])} {b(fl['lookups'])} {c} {b(fl['cses'])})"
 
 
-def make_mapper(fl, cached, composite=None):
+def make_mapper(fl, cached, composite=None, given=None):
+    """`fl`: the EFFECTIVE flags (the reference's); with `composite` set the include_* flags handed
+    to the constructor are `given` (any: `composite_leaves` overrides them, also "descend_args")"""
     from pymbolic.mapper.dependency import CachedDependencyMapper, DependencyMapper
     cls = CachedDependencyMapper if cached else DependencyMapper
+    if composite is not None and given is not None:
+        return cls(include_subscripts=given["subscripts"], include_lookups=given["lookups"],
+                   include_calls=given["calls"], include_cses=fl["cses"], composite_leaves=composite)
     if composite is not None:
         return cls(composite_leaves=composite, include_cses=fl["cses"])
     return cls(include_subscripts=fl["subscripts"], include_lookups=fl["lookups"],
@@ -50,12 +55,14 @@ class DepStream(Stream):
         for i in range(n):
             e = g.gen(rng.choice(["num", "any", "bool", "int"]), rng.randint(1, 5))
             fl = FLAGSETS[i % len(FLAGSETS)] if tier == "quick" else rng.choice(FLAGSETS)
-            comp = None
-            if i % 11 == 0:
+            comp = given = None
+            if i % 11 == 0 or i % 13 == 0:
                 comp = bool(i % 2)
+                if i % 13 == 0:
+                    given = rng.choice(FLAGSETS)     # explicit include_* flags that get overridden
                 fl = dict(fl, subscripts=comp, lookups=comp, calls=comp)
             yield {"expr": dumps(expr_to_sx(e)), "flags": fl, "cached": bool(i % 2),
-                   "composite": comp}
+                   "composite": comp, "given": given}
         # every flag set on a fixed tree that contains every composite kind nested in each other
         x, f, a, r = (p.Variable(v) for v in "xfar")
         nest = p.Sum((p.Subscript(a, p.Call(f, (x, p.Lookup(r, "u")))),
@@ -68,6 +75,12 @@ class DepStream(Stream):
             for cached in (False, True):
                 yield {"expr": dumps(expr_to_sx(nest)), "flags": fl, "cached": cached,
                        "composite": None}
+        # `composite_leaves` overrides every explicitly given include_* flag
+        for given in FLAGSETS:
+            for comp in (True, False):
+                eff = dict(given, subscripts=comp, lookups=comp, calls=comp)
+                yield {"expr": dumps(expr_to_sx(nest)), "flags": eff, "cached": given["cses"],
+                       "composite": comp, "given": given}
 
     def request(self, pl):
         c = "true" if pl["cached"] else "false"
@@ -75,7 +88,7 @@ class DepStream(Stream):
 
     def run_impl(self, pl):
         e = sx_to_expr(loads(pl["expr"]))
-        m = make_mapper(pl["flags"], pl["cached"], pl["composite"])
+        m = make_mapper(pl["flags"], pl["cached"], pl["composite"], pl.get("given"))
         try:
             res = m(e)
         except RecursionError:
@@ -86,7 +99,7 @@ class DepStream(Stream):
 
     def oracle(self, pl):
         e = sx_to_expr(loads(pl["expr"]))
-        m = make_mapper(pl["flags"], pl["cached"], pl["composite"])
+        m = make_mapper(pl["flags"], pl["cached"], pl["composite"], pl.get("given"))
         try:
             got = m(e)
         except Exception:
